@@ -119,6 +119,29 @@ pub mod wallclock {
             None => false,
         }
     }
+    /// the calendar dates `Spec.wall_date` selects (seconds after the epoch): a board without a clock
+    /// battery, 2038, 2106, where nanoseconds since the epoch leave i64 (2262) and u64 (2554), where
+    /// seconds << 30 leaves u64, and far beyond
+    pub const DATES: [i64; 10] = [0, 3, (1 << 31) + 5, (1 << 32) + 5, 9_223_372_040, (1 << 34) + 9, 18_446_744_080, (1 << 35) + 1, 1 << 40, 1 << 53];
+    static D: OnceLock<Option<SetFn>> = OnceLock::new();
+    /// returns false when the shim is not loaded
+    pub fn set_date(secs: i64) -> bool {
+        let f = D.get_or_init(|| unsafe {
+            let p = dlsym(std::ptr::null_mut(), b"verif_clock_date\0".as_ptr() as *const core::ffi::c_char);
+            if p.is_null() {
+                None
+            } else {
+                Some(std::mem::transmute::<*mut core::ffi::c_void, SetFn>(p))
+            }
+        });
+        match f {
+            Some(f) => {
+                unsafe { f(secs) };
+                true
+            }
+            None => false,
+        }
+    }
 }
 
 /// Every spec of every scenario is generated through here: the scenario's own generator, then the
@@ -133,6 +156,10 @@ pub fn generate(scn: &dyn Scenario, rng: &mut Prng, tier: Tier) -> Spec {
     if spec.kind == Some(crate::gens::Kind::Jitter) && matches!(scn.id(), "C05" | "C12" | "C14" | "C16" | "C17") && rng.chance(1, 10) {
         // real time flies while the code under test runs: 1 ms, 0.3 s, 1.5 s or an hour per clock reading
         spec.wall_step_ms = *rng.pick(&[1u64, 300, 1_500, 3_600_000]);
+    }
+    if spec.pre_new {
+        // the calendar date the real clock shows while this run's real-clock constructor runs
+        spec.wall_date = rng.below(wallclock::DATES.len() as u64) as u8;
     }
     if matches!(scn.id(), "C17" | "C14") {
         // ambient thread context of Debug formatting (see Spec.ctx)
@@ -163,6 +190,7 @@ pub fn set_run_environment(spec: &Spec) {
     log::set_max_level(if spec.logger { log::LevelFilter::Trace } else { log::LevelFilter::Off });
     crate::gens::set_call_generic(spec.generic);
     crate::gens::set_place(spec.place);
+    wallclock::set_date(if spec.wall_date > 0 { wallclock::DATES[spec.wall_date as usize % wallclock::DATES.len()] } else { 0 });
 }
 
 struct ExitHook(std::cell::RefCell<Option<Box<dyn FnOnce()>>>);
@@ -191,6 +219,10 @@ pub fn execute_guarded(scn: &dyn Scenario, spec: &Spec, st: &mut Stats) -> RunEn
     let flying = spec.wall_step_ms > 0 && wallclock::set_step_ns((spec.wall_step_ms as i64).saturating_mul(1_000_000));
     if flying {
         st.count("fault:wall_clock_steps");
+    }
+    let dated = spec.wall_date > 0 && wallclock::set_date(wallclock::DATES[spec.wall_date as usize % wallclock::DATES.len()]);
+    if dated {
+        st.count("fault:wall_clock_date");
     }
     let body = |st: &mut Stats| -> RunEnd {
         match catch_unwind(AssertUnwindSafe(|| scn.execute(spec, st))) {
@@ -268,6 +300,9 @@ pub fn execute_guarded(scn: &dyn Scenario, spec: &Spec, st: &mut Stats) -> RunEn
     };
     if flying {
         wallclock::set_step_ns(0);
+    }
+    if dated {
+        wallclock::set_date(0);
     }
     // An operation of the code under test that panics did not return what the functional properties
     // demand of it (the projection of the stream, the documented replacement, the procedure's value, a
